@@ -8,6 +8,9 @@ PART = {}
 FUNCTIONS = ["miros.activeobject.ActiveObject.post_fifo/post_lifo (timed form)", "miros.activeobject.ActiveObject.__post_event",
              "post_event_thread_runner (closure inside __post_event)", "miros.activeobject.LockingDeque.append/appendleft"]
 ASSUMPTIONS = [
+  "E2 part: the caller runs the real post_fifo/post_lifo(period, times, deferred) -> __post_event translated whole; the timer thread it creates is compiled "
+  "from the real post_event_thread_runner closure and runs against the caller and the object's own thread (run_event) under every interleaving; time.sleep "
+  "is a step of arbitrary relative duration; clock instants are the E1 part's subject",
   "time is a symbolic variable: miros.activeobject.time is a stub whose sleep(p) advances a virtual clock and records the instant; the period is a "
   "small int that is only ever added to the clock",
   "the timer thread is a recorded stand-in; its real body (the closure) is run to completion after the post call (no other thread interferes: "
@@ -121,3 +124,49 @@ def set_tier(tier):
 
 def jobs(tier):
   return jobs_all(globals(), tier)
+
+
+# ---- E2 part: the timer thread of an accepted timed post against the caller and the object's own thread, every interleaving --------------
+def e2_scenarios(tier):
+  a = dict(deferred=True, times=2, kind="fifo", capacity=2, existing=0, pending=1)
+  b = dict(deferred=False, times=1, kind="lifo", capacity=2, existing=1, pending=0)
+  c = dict(deferred=False, times=2, kind="fifo", capacity=2, existing=0, pending=0)
+  d = dict(deferred=True, times=1, kind="lifo", capacity=2, existing=1, pending=1)
+  if tier == "quick":
+    return [(a, 30), (b, 26)]
+  return [(a, 36), (b, 32), (c, 34), (d, 32)]
+
+
+def e2_specs(tier):
+  out = []
+  to = 900 if tier == "quick" else 3000
+  for (kw, K) in e2_scenarios(tier):
+    out.append(dict(scenario="rejecting", kwargs=kw, kind="reach", K=K + 8, pred="timed_all_posted", timeout=to))
+    out.append(dict(scenario="rejecting", kwargs=kw, kind="safety", K=K, pred="timed_too_many", timeout=to, replay="rejecting_replay"))
+    out.append(dict(scenario="rejecting", kwargs=kw, kind="deadlock", K=K, pred="timed_quiescent_wrong", timeout=to, replay="rejecting_replay"))
+  return out
+
+
+def e2_signature(spec, r):
+  real = r["replay"]["real"]
+  kw = spec["kwargs"]
+  n = kw["times"]
+  posted = real["rejected_event_in_queue"] + real["rejected_event_dispatched"]
+  if real["outcome"].get("error") or real["outcome"].get("rejected"):
+    return ("timed-post-failed", "%s; schedule: %s" % (real["outcome"], r["trace"]), True)
+  if spec["kind"] == "safety":
+    return ("posted-too-often:interleaving", "times=%d but the event was posted %d times on the real object; schedule: %s" % (n, posted, r["trace"]), posted > n)
+  flag_up = any(real["new_flag_up"])
+  return ("quiescent-but-timed-source-wrong", "nobody can move: times=%d, posted %d, dispatched %d, run flag up %s, tracked %d; schedule: %s" % (
+    n, posted, real["rejected_event_dispatched"], flag_up, real["tracked"], r["trace"]),
+    posted != n or real["rejected_event_dispatched"] != n or flag_up or real["tracked"] != kw["existing"] + 1)
+
+
+def solver_part(tier, known):
+  from vf.e2 import propbase, harness
+  FUNCTIONS.extend(x for x in propbase.functions_of("rejecting", e2_scenarios(tier)[0][0]) if x not in FUNCTIONS)
+  n = 5 if tier == "quick" else 20
+  out = propbase.run(e2_specs(tier), known, e2_signature, jobs=8,
+                     differential=lambda: harness.rejecting_differential(dict(deferred=True, times=2, kind="fifo", capacity=2, existing=0, pending=1), n, seed=37))
+  out["coverage"]["e2_bounds"] = [{"kwargs": k, "K": K} for k, K in e2_scenarios(tier)]
+  return out
